@@ -190,12 +190,11 @@ def formatter_exhaustive(ctx):
     from ..tinterp import dispatch_branches
     lp = [n for n in u.own_nodes() if isinstance(n, ast.While)]
     ctx.require(len(lp) == 1, '_format_t: step loop not found')
-    opv = None
-    for st in lp[0].body:
-        if isinstance(st, ast.Assign) and isinstance(st.targets[0], ast.Tuple) and len(st.targets[0].elts) == 2:
-            opv = st.targets[0].elts[0].id
-            argv = st.targets[0].elts[1].id
-    ctx.require(opv, '_format_t: `op, arg = path[i], path[i+1]` not found')
+    from ..tinterp import find_fetch
+    t = lp[0].test
+    ff = find_fetch(lp[0].body, set(u.params), t.left.id) if isinstance(t, ast.Compare) and is_name(t.left) else None
+    ctx.require(ff, '_format_t: `op, arg = path[i], path[i+1]` not found')
+    opv, argv = ff[0], ff[1]
     elses = []
     brs = dispatch_branches(lp[0].body, opv, else_bodies=elses)
     handled = set()
@@ -636,9 +635,12 @@ def slice_scaling(ctx):
     ok = len(sel) == 1 and matches(sel[0].value, '%s[%s:%s]' % (opsv, roles['start'], roles['stop']))
     ctx.ob(ok, u, 'steps are selected by one contiguous slice of the op tuple')
     stp = [n for n in ast.walk(u.node) if isinstance(n, ast.If) and matches(n.test, '%s is not None and %s != 1' % (roles['step'], roles['step']))]
-    ok = len(stp) == 1 and len(stp[0].body) == 2 and \
-        matches(stp[0].body[0], '%s = tuple(zip(%s[::%d], %s[1::%d]))[::%s]' % (npv, npv, S, npv, S, roles['step'])) \
+    ok = len(stp) == 1 and (
+        len(stp[0].body) == 2 and
+        matches(stp[0].body[0], '%s = tuple(zip(%s[::%d], %s[1::%d]))[::%s]' % (npv, npv, S, npv, S, roles['step']))
         and matches(stp[0].body[1], '%s = sum(%s, ())' % (npv, npv))
+        or len(stp[0].body) == 1 and
+        matches(stp[0].body[0], '%s = sum(tuple(zip(%s[::%d], %s[1::%d]))[::%s], ())' % (npv, npv, S, npv, S, roles['step'])))
     ctx.ob(ok, u, 'a step regroups (op, arg) pairs before striding, then flattens them again')
     r = [n for n in u.node.body if isinstance(n, ast.Return)]
     ok = len(r) == 1 and st and isinstance(r[0].value, ast.Call) and callee_qual(ctx.program, u, r[0].value) == 'core.Path' \
